@@ -472,7 +472,9 @@ func c07Run(sc *C07Scenario) (v *nodeViolation, flags map[string]bool) {
 				}
 				if fs, ok := firstSeen[i]; ok {
 					age := n.at.Sub(fs) + (n.shift - firstShift[i])
-					if age < delay {
+					// the first-seen time is stored with millisecond precision (rounded down), so after a
+					// restart the node may count up to 1 ms more than the harness measured
+					if age < delay-2*time.Millisecond {
 						return &nodeViolation{"C07/safe-before-delay", fmt.Sprintf("tx%d was reported safe %v after it was first seen, the configured safe delay is %v", i, age, delay)}, flags
 					}
 				}
